@@ -55,6 +55,7 @@ def tier_a_jobs(impl, scripts, aspects, workers_default=15, no_layout=False):
         dirty = {}         # job -> set of handles that must be processed by its next run
         touched = {}       # job -> set of (arch, chunk)
         prev_pos = {}
+        pending_acts = []
         workers = workers_default
         cap = 16384
         for l in lines_of.get(name, []):
@@ -114,6 +115,8 @@ def tier_a_jobs(impl, scripts, aspects, workers_default=15, no_layout=False):
                     if slot in occ_now:
                         for j in dirty:
                             dirty[j].add(occ_now[slot])
+            if op == 'jobact' and len(t) > 4:
+                pending_acts.append((int(t[1]), t[3], int(t[4])))
             if op == 'runjob':
                 j = int(t[1]); mode = int(t[2]); forced = int(t[3]) if len(t) > 3 else 0
                 jb = jobs[j]
@@ -193,6 +196,14 @@ def tier_a_jobs(impl, scripts, aspects, workers_default=15, no_layout=False):
                         ws = written & set(hv.get(h, {}))
                         if ws:
                             mark(h, ws, but=j)
+                # what the callback itself modified (markDirty / mutable access on some entity) while it ran: every job,
+                # this one included, has to see that at its next run
+                for idx_, h_, pal_ in pending_acts:
+                    if idx_ < N and h_ in hv:
+                        cs_ = set(pal_cids(lines_of[name], blocks, pal_)) & set(hv[h_].keys())
+                        if cs_:
+                            mark(h_, cs_)
+                pending_acts = []
             prev_pos = pos
         if fail:
             out.append(dict(script=name, opn=i, op=b['op'], aspect=fail[0], what=fail[1]))
